@@ -782,7 +782,7 @@ class Epoch(object):
             raise ValueError("Invalid input data")
         day = int(dd)
         frac = dd % 1
-        if yyyy >= 1:  # datetime's minimum year is 1
+        if yyyy >= 1583:  # datetime is proleptic Gregorian: not before 1583
             try:
                 d = datetime.date(yyyy, mm, day)
             except ValueError:
@@ -870,7 +870,7 @@ class Epoch(object):
         if isinstance(year, (int, float)) and isinstance(doy, (int, float)):
             frac = float(doy % 1)
             doy = int(doy)
-            if year >= 1:  # datetime's minimum year is 1
+            if year >= 1583:  # datetime is proleptic Gregorian
                 ref = datetime.date(year, 1, 1)
                 mydate = datetime.date.fromordinal(ref.toordinal() + doy - 1)
                 return year, mydate.month, mydate.day + frac
